@@ -457,6 +457,10 @@ func genRigCase(r *rng.R) rigIn {
 				if base == "bool" && r.Chance(1, 2) {
 					add(build("bool-bad:"+prm.name, vals{prm.name: rng.Pick(r, []string{"yes", "2", "tRuE"})}, "", nil))
 				}
+				if base == "bool" && prm.loc != "Path" && prm.loc != "Body" {
+					// a bare `?flag` / an empty value is no boolean (an optional one is simply absent)
+					add(build("bool-empty:"+prm.name, vals{prm.name: ""}, "", nil))
+				}
 				if base == "string" && prm.loc != "Body" && (prm.loc == "Query" || r.Chance(1, 2)) {
 					if prm.loc == "Path" {
 						add(build("encoded-path:"+prm.name, vals{prm.name: "a b", "raw:" + prm.name: rng.Pick(r, []string{"a%20b", "%41bc", "caf%C3%A9"})}, "", nil))
